@@ -456,7 +456,13 @@ class Case:
     # -- argument forms
     def args(self, a, b, as_array):
         if as_array:
-            return np.array(a), (None if b is None else np.array(b))
+            # index arrays of the integer types a caller may hold them in
+            # (the node numbers fit; products with N need not)
+            dts = ["int64", "int32", "int16", "uint16", "int8", "uint8"]
+            dt = dts[(len(a) + int(sum(a))) % len(dts)]
+            self.ctx.count("node_array_dtype:" + dt)
+            return np.array(a, dtype=dt), (None if b is None
+                                          else np.array(b, dtype=dt))
         return list(a), (None if b is None else list(b))
 
     def evaluate(self, name, a, b, la, as_array):
@@ -596,7 +602,8 @@ def battery(ctx, G, a, b, as_array, cid, internal=True, heavy=True):
         if "b" in flags and not heavy:
             continue
         c.check(name)
-        if "w" in flags and G.has_links:
+        if "w" in flags and G.has_links and not (
+                "p" in flags and getattr(G, "signed", False)):
             c.check(name, LW)
     # ---- subnetwork(): adjacency block and node weights in the given order
     if internal and len(c.a) > 1:     # Network() itself needs >= 2 nodes
@@ -1080,7 +1087,20 @@ def make_graph(ctx, IN, A, directed, rng, idx):
             z = z | z.T
         W = np.where(z, 0.0, W)
         ctx.count("graphs_with_zero_length_links")
-    return Graph(IN, A, directed, w, W)
+    signed = idx % 5 == 3 and A.any()
+    if signed:
+        # link attributes of either sign (strengths and attribute blocks are
+        # plain sums / sub-blocks; weighted path lengths are not defined then
+        # and are left out for these graphs)
+        sg = rng.choice([-1.0, 1.0], size=W.shape)
+        if not directed:
+            sg = np.triu(sg, 1)
+            sg = sg + sg.T
+        W = W * sg
+        ctx.count("graphs_with_signed_link_attributes")
+    G_ = Graph(IN, A, directed, w, W)
+    G_.signed = bool(signed)
+    return G_
 
 
 def order(rng, nodes, k):
